@@ -1,7 +1,10 @@
 (** Judges for the plain-queue histories; one per property (C03, C04, C06), sharing the lockstep
     oracle of Queue/PWSOracle. To be used from the C03/C04/C06 checks next to the ordered-queue
     judges ([Cases.OWS]). *)
-From OCV Require Export Base.Prelude Queue.PMap Queue.PWS Queue.PWSOracle.
+From OCV Require Export Base.Prelude.
+(* not re-exported: the constructor names of PWS coincide with those of OWS; generated case terms
+   use qualified names (PWS.GPush ...) so that both can be used from one Cases file *)
+From OCV Require Import Queue.PMap Queue.PWS Queue.PWSOracle.
 From Coq Require Import String.
 Open Scope string_scope.
 
